@@ -238,12 +238,25 @@ class C18(Check):
         # ONE PythonIndenter object behind both python instances, so lex-mode and parse-mode streams of a history share its state
         self.py_ind = PythonIndenter()
         self.py_basic = Lark.open_from_package('lark', 'python.lark', ['grammars'], parser='lalr', lexer='basic', postlex=self.py_ind, start='file_input')
-        self.py_ctx = Lark.open_from_package('lark', 'python.lark', ['grammars'], parser='lalr', postlex=self.py_ind, start='file_input')
+        self._py_ctx = self._py_oracle = None       # built on first use (1.3 s each, needed only by parse-mode streams of the python driver)
         # the parse-mode oracle: instances of their own whose Indenter is re-initialised before every single use
         self.py_oracle_ind = PythonIndenter()
-        self.py_oracle = Lark.open_from_package('lark', 'python.lark', ['grammars'], parser='lalr', postlex=self.py_oracle_ind, start='file_input')
         self.tree_oracle_ind = W.make_postlex('tree')
         self.tree_oracle = {lx: Lark(W.G_IND, parser='lalr', lexer=lx, postlex=self.tree_oracle_ind) for lx in ('contextual', 'basic')}
+
+    @property
+    def py_ctx(self):
+        if self._py_ctx is None:
+            from lark import Lark
+            self._py_ctx = Lark.open_from_package('lark', 'python.lark', ['grammars'], parser='lalr', postlex=self.py_ind, start='file_input')
+        return self._py_ctx
+
+    @property
+    def py_oracle(self):
+        if self._py_oracle is None:
+            from lark import Lark
+            self._py_oracle = Lark.open_from_package('lark', 'python.lark', ['grammars'], parser='lalr', postlex=self.py_oracle_ind, start='file_input')
+        return self._py_oracle
 
     # ------------------------------------------------------------------ plan
     def gen_plan(self, rng, tier):
